@@ -71,7 +71,9 @@ lbuf_size(int level, int cls)
                 return t[l][cls];
         if (cls == 6)
                 return t[l][0] ? t[l][0] - 1 : 0; /* one byte below the documented minimum */
-        return 0;                                 /* cls 5: NULL buffer */
+        if (cls >= 7 && cls <= 10) /* 7..10: a level buffer that does not start on an aligned address (offset 1, 1, 2, 3; sizes LARGE, MIN, LARGE, LARGE) */
+                return t[l][cls == 8 ? 0 : 3];
+        return 0; /* cls 5: NULL buffer */
 }
 
 /* input chunk memory under the three disciplines */
@@ -257,7 +259,7 @@ run_deflate(struct scn *s)
         z->gzip_flag = s->wrap;
         z->hist_bits = s->hist_bits;
         if (s->lbuf != 5 && lsz > 0) {
-                z->level_buf = vh_place(&lr, lsz, VH_END, 0);
+                z->level_buf = vh_place(&lr, lsz, VH_END, s->lbuf >= 7 ? (s->lbuf == 9 ? 2 : s->lbuf == 10 ? 3 : 1) : 0);
                 prefill(z->level_buf, lsz, s->prefill & 15);
                 z->level_buf_size = lsz;
         } else {
